@@ -94,18 +94,19 @@ def h_order2_call(ctx, I):
 
 
 def h_concrete_order2_tt(ctx):
-    """Order-2 TT-tensor on full grids, d = 2..5, for functions with pairwise
+    """Order-2 TT-tensor on full grids, d = 2..9 (up to 36 pair summands, so that the periodic
+    rounding inside add_many happens twice), for functions with pairwise
     interactions only: with a rank that is large enough the tensor reproduces the
     function (real code: the rounding inside add_many is not encodable for generic
     data)."""
     rng = np.random.default_rng(11)
     ok = True
-    for ns in ([3, 2], [2, 3, 2], [2, 3, 2, 3], [3, 2, 2, 3], [2, 2, 2, 2, 2]):
+    for ns in ([3, 2], [2, 3, 2], [2, 3, 2, 3], [3, 2, 2, 3], [2, 2, 2, 2, 2], [2] * 6, [2, 3, 2, 2, 2, 2, 2], [2] * 9):
         d = len(ns)
         I = np.array(list(itertools.product(*[range(k) for k in ns])))
         g = {(a, b): rng.normal(size=(ns[a], ns[b])) for a in range(d - 1) for b in range(a + 1, d)}
         y = np.array([sum(g[a, b][i[a], i[b]] for (a, b) in g) for i in I])
-        Y = teneva.anova(I, y, r=12, order=2, noise=0., seed=1)
+        Y = teneva.anova(I, y, r=(12 if d <= 6 else 40), order=2, noise=0., seed=1)
         F = teneva.full(Y)
         want = y.reshape(ns)
         ok = ok and F.shape == tuple(ns) and bool(np.linalg.norm(F - want) <= 1e-8 * np.linalg.norm(want))
